@@ -111,6 +111,11 @@ func c18Atoms() []*term {
 		sel(selSpec{Exprs: []selReq{{Key: "x", Op: "In", Values: []string{"1", "2"}}}}),
 		sel(selSpec{Exprs: []selReq{{Key: "x", Op: "In", Values: []string{"2", "1"}}}}),
 		sel(selSpec{Exprs: []selReq{{Key: "x", Op: "NotIn", Values: []string{"1"}}}}),
+		sel(selSpec{Exprs: []selReq{{Key: "x", Op: "In", Values: []string{"1"}}}}),
+		sel(selSpec{Exprs: []selReq{{Key: "x", Op: "In", Values: []string{"1", "2", "3"}}}}),
+		sel(selSpec{Exprs: []selReq{{Key: "x", Op: "NotIn", Values: []string{"1", "2"}}}}),
+		sel(selSpec{Exprs: []selReq{{Key: "x", Op: "DoesNotExist"}}}),
+		sel(selSpec{MatchLabels: map[string]string{"x": "1", "y": "2"}}),
 		sel(selSpec{Exprs: []selReq{{Key: "y", Op: "Exists"}}}),
 		sel(selSpec{Exprs: []selReq{{Key: "y", Op: "DoesNotExist"}}}),
 		sel(selSpec{MatchLabels: map[string]string{"x": "1"}, Exprs: []selReq{{Key: "y", Op: "NotIn", Values: []string{"2", "3"}}}}),
